@@ -18,6 +18,25 @@ ID_C08L = ("C08 object present in the outgoing and the incoming revision deleted
            "(a paused pass of the outgoing revision could not see it: cache label removed by the teardown of an older revision)")
 ID_C08A = ("C08 object present in the outgoing and the incoming revision deleted during the handover "
            "(outgoing revision archived on the Available report of a revision that does not control the object)")
+ID_C08U = ("C08 revision archived although its status.controllerOf was never reported "
+           "(unknown is not 'controls nothing') and no newer revision is Available")
+
+
+def archived_unreported(sc, obs):
+    """an archive request for a revision whose stored controllerOf is nil while no newer revision reports Available"""
+    pre = sc["sets"]
+    for st, so in zip(sc["steps"], obs["steps"]):
+        if st["op"] == "dep":
+            for e in so["events"]:
+                if e["kind"] == "update" and e.get("life") == 2 and e["res"] in ("ok", "lost"):
+                    r = next((s for s in pre if s["name"] == e["name"]), None)
+                    if r is not None and not r["ctrlof"] and not r["ctrlset"] and \
+                            not any(s["revision"] > r["revision"] and any(c[0] == 0 and c[1] == 0 for c in s["conds"]) for s in pre):
+                        return True
+        pre = so["sets"]
+    return False
+ID_C08P = ("C08 object present in the outgoing and the incoming revision deleted during the handover "
+           "(status.controllerOf of the outgoing revision omits an object it controls in a phase it did reconcile)")
 
 
 def handover_identity(sc, obs):
@@ -39,7 +58,19 @@ def handover_identity(sc, obs):
                         if not o["cache"]:
                             return ID_C08L
                         if len(r["phases"]) > 1:
-                            return ID_C08T
+                            # F-C08c: the object sits BEHIND the first phase whose probe fails (Widgets, kind 2, are probed)
+                            def fails(p):
+                                for q in p["objects"]:
+                                    if q["gk"] == 2:
+                                        ob = next((x for x in pre_store if x["gk"] == 2 and x["name"] == q["name"]), None)
+                                        if ob is None or ob["avail"] != 1:
+                                            return True
+                                return False
+                            failing = next((i for i, p in enumerate(r["phases"]) if fails(p)), None)
+                            mine = next((i for i, p in enumerate(r["phases"]) if any(q["gk"] == o["gk"] and q["name"] == o["name"] for q in p["objects"])), None)
+                            if failing is not None and mine is not None and mine > failing:
+                                return ID_C08T
+                            return ID_C08P
                         return None
         pre_sets, pre_store = so["sets"], so["post"]
     return None
